@@ -25,6 +25,18 @@ CLAIMED = {
         text="Generator programs under random layouts with comments in every position, a catalogue of literal and comment forms, and every .ucg file in the repository are formatted by the real AstPrinter (the exact code path of `ucg fmt`); the formatted text must parse to the same tree (positions and field-name quoting ignored), carry the same comment texts in the same order as read by my own tokenizer, and be a fixed point where the property demands it; `ucg fmt` and `ucg fmt -w` must produce the same bytes.",
         note="Trusted: the probe's AST serializer (what counts as 'the same tree'), vf/reftok.py for comment extraction.",
         design="DESIGN.md section 4, C05"),
+    "C07": dict(
+        engine="probe",
+        technique="runtime monitor: differential between two paths through the real code (eval_string without the checker vs build of the same text as a file with the checker)",
+        text="Well-typed generated programs over the first-order fragment plus a catalogue of documented constructs are evaluated without the checker; every one that evaluates is written to a file and built with the checker in front of the same VM: a rejection, or a different bound value, is a violation keyed on the checker's message. Only programs that evaluate are judged, so the check can never demand more than the statement.",
+        note="Trusted: nothing beyond the probe; both sides are real code. Statically ill-typed dead code is not generated in this mode (a static checker may reject it).",
+        design="DESIGN.md section 4, C07"),
+    "C10": dict(
+        engine="probe",
+        technique="runtime monitor: prefix-consistency differential (every program vs each of its statement prefixes), reference-interpreter oracle on name-collision templates, reserved-word list read from the reference",
+        text="Each generated program is run cut at every statement boundary: a binding made by a prefix must keep its value in the full run and a failing prefix must fail the program; 23 scoping templates (shadowing, leaks of parameters/item/self/module bindings, references to later bindings, module isolation) padded with unrelated statements are judged by the reference interpreter; every published reserved word is tried as a let, constraint, module-local and parameter binding.",
+        note="Trusted: vf/refint.py scoping rules; the reserved list in reference/_index.md as the specification.",
+        design="DESIGN.md section 4, C10"),
     "C11": dict(
         engine="probe",
         technique="runtime monitor: reference-model oracle (maximal-munch reference tokenizer) on token type/fragment/line/column/offset; exhaustive token pairs (+ triples in thorough); metamorphic layout invariance of tokens and parse trees",
